@@ -416,6 +416,7 @@ func runParent(id, tier string) int {
 				merged.Outcomes += w.Outcomes
 				merged.NonTrivial += w.NonTrivial
 				merged.Pruned += w.Pruned
+				merged.Diverged += w.Diverged
 				merged.Scenarios += w.Scenarios
 				merged.ScenariosCut += w.ScenariosCut
 				if w.MaxDevs > merged.MaxDevs {
@@ -480,7 +481,10 @@ func runParent(id, tier string) int {
 		merged.PerScenario = merged.PerScenario[:24]
 	}
 	wall := time.Since(start).Seconds()
-	exhaustive := merged.ScenariosCut == 0 && len(hangs) == 0
+	exhaustive := merged.ScenariosCut == 0 && len(hangs) == 0 && merged.Diverged == 0
+	if merged.Diverged > 0 {
+		fmt.Fprintf(os.Stderr, "note: %d executions did not follow their recorded prefix: the code under test carries state from one execution to the next (a package-level cache or pool); exploration went on, the run is not exhaustive\n", merged.Diverged)
+	}
 	// prefer samples that took choices (they show what an explored case looks like)
 	sort.SliceStable(merged.Samples, func(i, j int) bool { return len(merged.Samples[i].Choices) > len(merged.Samples[j].Choices) })
 	if len(merged.Samples) > 4 {
@@ -520,6 +524,7 @@ func runParent(id, tier string) int {
 			"scenarios":                     merged.Scenarios,
 			"scenarios_cut_by_budget":       merged.ScenariosCut,
 			"state_pruned_executions":       merged.Pruned,
+			"diverged_executions":           merged.Diverged,
 			"workers":                       n,
 			"known_findings_hit":            knownHit,
 			"largest_scenarios":             merged.PerScenario,
